@@ -64,12 +64,14 @@ pub fn run(case: &Value, em: &mut Emitter) {
         for w in ts.windows(2).take(6) {
             let res = |t: &sourcemap::Token<'_>| json!({"dl": num(t.get_dst_line()), "dc": num(t.get_dst_col()),
                 "src": match t.get_source() { Some(s) => json!([s]), None => json!([]) }, "sl": num(t.get_src_line()), "sc": num(t.get_src_col()),
-                "nm": opt_str(t.get_name()), "rg": t.is_range(), "raw": tok_json(t)});
+                "nm": opt_str(t.get_name()), "rg": t.is_range(), "raw": tok_json(t),
+                "rawids": [idx(t.get_raw_token().src_id), idx(t.get_raw_token().name_id)]});
             let c = |o: std::cmp::Ordering| match o { std::cmp::Ordering::Less => -1, std::cmp::Ordering::Equal => 0, std::cmp::Ordering::Greater => 1 };
             em.emit("ord", json!({"a": res(&w[0]), "b": res(&w[1])}), json!({"k": "ok", "eq": w[0] == w[1], "cmp": c(w[0].cmp(&w[1])), "rcmp": c(w[1].cmp(&w[0]))}));
             // the three text renderings of a token
             let t = &w[0];
-            em.emit("render", json!({"a": res(t)}), guard(|| json!({"k": "ok", "display": format!("{}", t), "alt": format!("{:#}", t), "debug": format!("{:?}", t)})));
+            em.emit("render", json!({"a": res(t)}), guard(|| json!({"k": "ok", "display": format!("{}", t), "alt": format!("{:#}", t), "debug": format!("{:?}", t),
+                                                                      "ids": [idx(t.get_src_id()), idx(t.get_name_id())], "has": [t.has_source(), t.has_name()]})));
         }
     }
 }
